@@ -31,6 +31,18 @@ def load_known(prop: str) -> List[Dict[str, str]]:
     return [k for k in data.get('findings', []) if k['property'] == prop]
 
 
+def load_regressions(prop: str) -> List[Dict[str, Any]]:
+    """Saved inputs of repaired defects and of sensitivity runs: cases that
+    once made a check fail on a defective tree and hold on the current one.
+    They are replayed on every run before the generated cases."""
+
+    try:
+        with open(os.path.join(VERIF, 'regressions', prop + '.json')) as f:
+            return json.load(f)
+    except FileNotFoundError:
+        return []
+
+
 def match_known(known: List[Dict[str, str]], v: Violation) -> Optional[int]:
     for i, k in enumerate(known):
         if k['clause'] == v.clause and k['sig'] == v.sig:
@@ -240,6 +252,29 @@ def run_shard(args) -> Dict[str, Any]:
             res['violations'] = []
             return res
 
+        if famname.startswith('__regress__:'):
+            real = famname.split(':', 1)[1]
+            fam = mod.FAMILIES[_family_index(mod, real)]
+            stats = ShardStats(prop, fam, load_known(prop))
+            stats.collect_all = True
+
+            if fam.worker_init:
+                fam.worker_init()
+
+            for entry in load_regressions(prop):
+                if entry['family'] != real:
+                    continue
+                try:
+                    stats.run(jdec(entry['case']))
+                except Violation:
+                    pass
+
+            res = stats.result()
+            res['family'] = real
+            res['classes'] = dict(res['classes'])
+            res['classes']['regression-case'] = res['evaluations']
+            return res
+
         fam = mod.FAMILIES[_family_index(mod, famname)]
         stats = ShardStats(prop, fam, load_known(prop))
 
@@ -435,6 +470,11 @@ def main(prop: str, tier: str, seed: int, only: Optional[str] = None,
 
         for shard in range(nshards):
             tasks.append((prop, fam.name, tier, seed, shard, nshards, per))
+
+    for famname in sorted({e['family'] for e in load_regressions(prop)}):
+        if not only or famname == only:
+            tasks.insert(0, (prop, '__regress__:' + famname, tier, seed, 0,
+                             1, 0))
 
     if not only:
         for i, k in enumerate(known):
